@@ -152,3 +152,9 @@ func OCSPSelfTest() error {
 	}
 	return nil
 }
+
+// OCSPKATMaterial returns the OpenSSL-made CA certificate and the delegated
+// response (DER) of the self-test, for use as a canary of external tools.
+func OCSPKATMaterial() (caDER, respDER []byte) {
+	return ocspUnhex(ocspKATCA), ocspUnhex(ocspKATResp2)
+}
